@@ -77,6 +77,11 @@ func hostileCrits(r *gen.Rng, f, g string) []*model.Crit {
 		model.And(model.Cmp(model.OpGt, f, lit(n+3)), model.Cmp(model.OpLt, f, lit(n))),
 		model.And(eq(f, n), eq(f, n+1)),
 		model.And(eq(f, n), model.Cmp(model.OpGt, f, lit("x"))),
+		model.And(model.Cmp(model.OpGt, f, lit(n)), in(f, lit(n+1), lit(n+2))),
+		model.And(eq(f, n), &model.Crit{Op: model.OpExists, Field: f}),
+		model.And(model.Cmp(model.OpLt, f, lit(n+5)), model.Cmp(model.OpLt, f, model.RefF(g))),
+		model.And(model.Cmp(model.OpGtEq, f, lit(n)), model.Cmp(model.OpGt, f, lit(nil))),
+		model.And(model.Cmp(model.OpLtEq, f, lit(n+3)), like(f, "a")),
 		model.Or(eq(f, n), eq(g, n)),
 		model.And(eq(f, n), eq(g, n)),
 		model.Cmp(model.OpNeq, f, lit(n)),
